@@ -521,7 +521,10 @@ def make_stop(b, s, hooks=True):
     sensor = make_sensor(b, s['sensor'], s['elem'])
     if hooks:
         sensor = RecordingSensor(sensor, b)
-    return ut.StopCondition(sensor=sensor, threshold=mkq(s['thr']), operator=getattr(ut.StopCondition, OPS[s['op']]))
+    thr = mkq(s['thr'])
+    # the threshold object the user handed over is remembered with what it was: it must come back from every run unchanged
+    b.thresholds = getattr(b, 'thresholds', []) + [(thr, thr.value, thr.unit, type(thr).__name__)]
+    return ut.StopCondition(sensor=sensor, threshold=thr, operator=getattr(ut.StopCondition, OPS[s['op']]))
 
 
 # ---------------------------------------------------------------------------
@@ -596,12 +599,18 @@ def run_schedule(b, on_capture=None):
             if op.get('stop_spec'):
                 stop = make_stop(b, op['stop_spec'])          # a stop condition of its own for this run
                 rec['stop'] = True
+            dt_obj, T_obj = mkq_history(op['dt'], op.get('dt_via')), mkq_history(op['T'], op.get('T_via'))
+            given_ = [(o_, o_.value, o_.unit) for o_ in (dt_obj, T_obj)]
             try:
-                b.solver.run(time_discretization=mkq_history(op['dt'], op.get('dt_via')), simulation_time=mkq_history(op['T'], op.get('T_via')),
+                b.solver.run(time_discretization=dt_obj, simulation_time=T_obj,
                              motor_control=b.control if rec['control'] else None,
                              stop_condition=stop)
             except Exception as ex:          # recorded, judged by the monitors
                 rec['exc'] = (type(ex).__name__, str(ex)[:200])
+            # the quantities handed to run() are the caller's: they come back as they were
+            for name_, (o_, v_, u_) in zip(('time_discretization', 'simulation_time'), given_):
+                if o_.value != v_ or o_.unit != u_:
+                    b.modified_run_arguments = getattr(b, 'modified_run_arguments', []) + [{'argument': name_, 'given': [v_, u_], 'after_the_run': [o_.value, o_.unit]}]
             b.max_calls = None
             rec['n1'] = len(b.pt.time)
             rec['load_calls1'] = len(b.load_log)
@@ -719,4 +728,6 @@ def run_schedule(b, on_capture=None):
             finally:
                 shutil.rmtree(d, ignore_errors=True)
     b.runs = runs
+    b.modified_thresholds = [{'given': [k_, v_, u_], 'now': [type(o_).__name__, o_.value, o_.unit]} for (o_, v_, u_, k_) in getattr(b, 'thresholds', [])
+                             if not (type(o_).__name__ == k_ and o_.unit == u_ and (o_.value == v_ or (o_.value != o_.value and v_ != v_)))]
     return runs
